@@ -6,7 +6,7 @@
    * AddToFile over batches whose Create succeeds loses nothing; the outcome of [finish]. *)
 From Coq Require Import Lia Permutation Sorted.
 From ACH Require Import ValidOut ValidOutFacts.
-From ACH Require Import OffsetsFacts BuildIATFacts FileCreateAll FileCreateAllFacts ValidOffsets ValidOffsetsFacts.
+From ACH Require Import OffsetsFacts BuildIATFacts BuildADVFacts FileCreateAll FileCreateAllFacts ValidOffsets ValidOffsetsFacts.
 From ACH Require Import Bytes Fields Flatten FlattenFacts ValidFlatten ValidFlattenFacts FlattenFull.
 Open Scope Z_scope.
 
@@ -880,3 +880,25 @@ Proof.
 Qed.
 
 End MixedSucceeds.
+
+(* ------------------------------------------------------------------ ADV batches *)
+
+(* Create of a consolidated ADV batch (C05's adv_build, then isCategory over the ADV entries):
+   succeeds exactly when the batch holds at most 9998 ADV entries — consolidation has no such
+   limit, see C12_succeeds_adv_limit_refuted *)
+Lemma create_adv_iff TT (hd : bytes -> hdrp) (ap : bytes -> apay) x :
+  hd_ok (hd (b_sig x)) = true -> b_entries x = [] -> b_adv x <> [] -> category_ok x = true ->
+  (create_adv TT hd ap x <> None <-> BuildIAT.zlen (b_adv x) <= 9998).
+Proof.
+  intros Hok He Ha Hc.
+  assert (Hh : BuildADV.ab_hdr_ok (to_adv hd ap x) = true) by exact Hok.
+  assert (Hne : BuildADV.ab_entries (to_adv hd ap x) <> []).
+  { unfold to_adv. cbn [BuildADV.ab_entries]. intros E. apply map_eq_nil in E. congruence. }
+  assert (Hlen : BuildIAT.zlen (BuildADV.ab_entries (to_adv hd ap x)) = BuildIAT.zlen (b_adv x)).
+  { unfold to_adv, BuildIAT.zlen. cbn [BuildADV.ab_entries]. now rewrite map_length. }
+  pose proof (BuildADVFacts.adv_build_limit TT (to_adv hd ap x) Hh eq_refl Hne) as Hl. rewrite Hlen in Hl.
+  unfold create_adv. destruct (BuildADV.adv_build TT (to_adv hd ap x)) as [ok a'] eqn:E. cbn [fst] in Hl.
+  rewrite (is_category_adv_ok x He Ha), Hc. destruct ok.
+  - split; [intros _; now apply Hl|intros _; discriminate].
+  - split; [intros H; congruence|intros H; apply Hl in H; discriminate].
+Qed.
